@@ -392,7 +392,7 @@ Proof. intros q e ts tq HR. apply (L_to_R _ _ _ _ HR). apply render_L. exact HR.
 
 (** the whole input: [full_expression] over tokens *)
 Theorem tparse_full_render : forall e ts tq, R 0 e ts tq ->
-  parse_full T tok_lexer arith_table ts = PMatch e [].
+  parse_full T tok_lexer arith_table false ts = PMatch e [].
 Proof.
   intros e ts tq HR. unfold parse_full. cbn [lx_empty lx_ws lx_size tok_lexer].
   pose proof (R_nonempty _ _ _ _ HR) as Hn. destruct ts as [|t0 ts0] eqn:Ets; [cbn in Hn; lia|].
@@ -491,7 +491,7 @@ Qed.
 
 (** parse (render e) = e for every well-formed tree, minimal parentheses from bash's table *)
 Theorem tparse_render_min : forall e, wf e ->
-  parse_full T tok_lexer arith_table (render_at 0 e) = PMatch e [].
+  parse_full T tok_lexer arith_table false (render_at 0 e) = PMatch e [].
 Proof.
   intros e Hwf. destruct (render_at_R e Hwf 0%nat) as (tq & HR). eapply tparse_full_render. exact HR.
 Qed.
@@ -529,11 +529,11 @@ Fixpoint wf_chars (e : aexpr) : Prop :=
 
 Definition parse_render_stmt : Prop :=
   forall e ts tq, R 0 e ts tq -> wf_chars e ->
-  parse_opt str (char_lexer arith_lex) arith_table (show_toks ts) = Some e.
+  parse_opt str (char_lexer arith_lex) arith_table (blank_zero arith_lex) (show_toks ts) = Some e.
 
 (** executable instance of the statement for the minimal rendering (used by Entry.v) *)
 Definition roundtrip_check (e : aexpr) : bool :=
-  match parse_opt str (char_lexer arith_lex) arith_table (show_toks (render_at 0 e)) with
+  match parse_opt str (char_lexer arith_lex) arith_table (blank_zero arith_lex) (show_toks (render_at 0 e)) with
   | Some e' => str_eqb (show_ast e') (show_ast e)
   | None => false
   end.
@@ -555,5 +555,5 @@ Definition ex_all_ops : aexpr :=
 
 Example parse_render_instance :
   wf ex_all_ops /\ roundtrip_check ex_all_ops = true /\
-  parse_full T tok_lexer arith_table (render_at 0 ex_all_ops) = PMatch ex_all_ops [].
+  parse_full T tok_lexer arith_table false (render_at 0 ex_all_ops) = PMatch ex_all_ops [].
 Proof. split; [cbn; tauto|]. split; vm_compute; reflexivity. Qed.
